@@ -126,9 +126,11 @@ func (env *CEnv) eval(e *CExpr) Val {
 			}
 			// the expansion is what is ASSUMED; when the clause is a GOAL the equivalent quantified form is proved instead
 			// (a skolem constant matches the callees' quantified postconditions, ground indices such as 3*2 = 6 do not)
-			variantMu.Lock()
-			expandedFrom[t] = &Term{Op: "forall", S: SBool, Bound: bound, Args: []*Term{body}}
-			variantMu.Unlock()
+			if !e.ExpandGoal {
+				variantMu.Lock()
+				expandedFrom[t] = &Term{Op: "forall", S: SBool, Bound: bound, Args: []*Term{body}}
+				variantMu.Unlock()
+			}
 			return boolSV(t)
 		}
 		if e.Kind == "forall" {
